@@ -8,6 +8,7 @@ source by the extracted `Facts.processHeaderCheckOrder`.
 -/
 import BRV.Proofs.RepoBasics
 import BRV.Proofs.RepoExample
+import BRV.Proofs.LinearWorld
 
 namespace BRV.Repo
 
@@ -143,5 +144,18 @@ example : StreamWF genesisRepo ∧ genesisRepo.longest < genesisRepo.arena.lengt
     precheck genesisRepo { id := 1, prev := 0, bits := 0x1d00ffff, time := 2 } true
       = .inr (0, 0, { hdr := { id := 0, prev := 99, bits := 0x1d00ffff, time := 1 }, work := 4295032833 }) :=
   ⟨genesisRepo_streamWF, by decide, by decide⟩
+
+
+/-- **C08 in the linear world** (also with most of the chain pruned from memory, at any generation): a
+    submission either leaves the chain unchanged, announces nothing and is answered with a refusing verdict,
+    or is accepted (`ok`), announced exactly once and appended as the new tip. -/
+theorem C08_linear_step (r : Repo) (c : List HData) (k m : Nat) (hp : PLin r c k m) (h : Hdr) (ok : Bool)
+    (hlin : LinStep r h ok) :
+    ∃ c' : List HData, ObsChain (processHeader r h ok).1 c' ∧
+      ((c' = c ∧ (processHeader r h ok).2.events = [] ∧ (processHeader r h ok).2.verdict ≠ .ok) ∨
+       (∃ d : HData, d.hdr = h ∧ c' = c ++ [d] ∧ (processHeader r h ok).2.events = [h] ∧
+          (processHeader r h ok).2.verdict = .ok)) := by
+  obtain ⟨c', k', m', hp', hcase, _, _⟩ := step_lin hp h ok hlin
+  exact ⟨c', hp'.obsChain, hcase⟩
 
 end BRV.Repo
